@@ -47,6 +47,7 @@ theorem crash_one_failure_partial (plan : Plan) (hp : TruncCaught srcCfg plan) (
 boundary, which raises `EOFError`) satisfies the hypothesis -/
 example : TruncCaught srcCfg (fun _ k => if k = 3 then .trunc "EOFError" else .none) := by
   intro h k cls hc
+  dsimp only at hc
   split at hc
   · cases hc; decide
   · cases hc
